@@ -708,6 +708,9 @@ func formatSQL(sql string, opts FormattingOptions) string {
 
 	indent := ""
 	if opts.InsertSpaces {
+		if opts.TabSize < 0 {
+			opts.TabSize = 0
+		}
 		indent = strings.Repeat(" ", opts.TabSize)
 	} else {
 		indent = "\t"
@@ -1323,12 +1326,12 @@ func (h *Handler) handleSignatureHelp(params json.RawMessage) (*SignatureHelp, e
 // getFunctionAtPosition finds the function name and parameter index at a position
 func (h *Handler) getFunctionAtPosition(content string, pos Position) (string, int) {
 	lines := strings.Split(content, "\n")
-	if pos.Line >= len(lines) {
+	if pos.Line < 0 || pos.Line >= len(lines) {
 		return "", 0
 	}
 
 	line := lines[pos.Line]
-	if pos.Character > len(line) {
+	if pos.Character < 0 || pos.Character > len(line) {
 		return "", 0
 	}
 
